@@ -36,7 +36,19 @@ def legs(tier):
     for v in ("3.12", "3.11"):
         out.append(Leg(v, n, args={"leg": "race_inspect"}, name=v + "-race-inspect"))
         out.append(Leg(v, n, args={"leg": "race_extract"}, name=v + "-race-extract"))
+    # The 3.9/3.10 inspector has no validated-snapshot protocol (known finding F11, see known_findings.json): the racing
+    # exploration is run there too, single deviations, until it meets the defect; what it meets is reported under
+    # the finding's signature, anything with another signature is a violation as usual.
+    for v in ("3.10", "3.9"):
+        out.append(Leg(v, 1, args={"leg": "race_inspect", "legacy": True}, name=v + "-race-legacy"))
     return out
+
+
+def crash_sig(interp, case):
+    """Signature of a crash, computed from the in-flight case only."""
+    if interp in ("3.9", "3.10") and isinstance(case, dict) and str(case.get("leg", "")).startswith("race"):
+        return "legacy-inspector-race"
+    return "crash"
 
 
 def bounds(tier):
@@ -515,7 +527,12 @@ def check_extract(R, refs, sched, start_pos):
 
 
 def run_race(ctx, which):
-    b = bounds(ctx.tier)
+    b = dict(bounds(ctx.tier))
+    legacy = bool(ctx.args.get("legacy"))
+    vsig = "legacy-inspector-race" if legacy else which
+    if legacy:
+        b["deviation_bound"] = 1
+        b["target_programs"] = 1
     idx = 0
     outcomes = {}
     for ti in range(b["target_programs"]):
@@ -530,7 +547,7 @@ def run_race(ctx, which):
             # fault-free run: count points
             outcome, problems, out = checker(R, refs, {}, start_pos)
             if problems:
-                ctx.violation({"leg": which, "target": ti, "start": start_pos, "schedule": {}}, "; ".join(problems)[:1200], which)
+                ctx.violation({"leg": which, "target": ti, "start": start_pos, "schedule": {}}, "; ".join(problems)[:1200], vsig)
             npoints = out["npoints"]
             ctx.count("scheduling_points", npoints)
             for sched in deviations(npoints, npos - start_pos, b["deviation_bound"], which == "race_extract"):
@@ -550,7 +567,7 @@ def run_race(ctx, which):
                     ctx.count("impostor_ident_reused")
                 if problems:
                     ctx.violation({"leg": which, "target": ti, "start": start_pos, "schedule": dict((str(k), v) for k, v in sched.items())},
-                                  "; ".join(problems)[:1200], which)
+                                  "; ".join(problems)[:1200], vsig)
         ctx.sample({"leg": which, "target": TARGETS[ti].__name__, "positions": npos, "reference": dict((str(k), v) for k, v in list(refs.items())[:3])})
     for k, v in outcomes.items():
         ctx.count("outcome:" + k, v)
